@@ -210,7 +210,11 @@ pub fn generate(run_seed: u64) -> Scenario {
     p.links |= wl.chance(1, 2);
     p.comments |= wl.chance(1, 2);
     p.huge_nums = false;
-    let doc = gen_doc(&mut wl, p);
+    let doc = if wl.chance(1, 4) {
+        gen_doc_from_seeds(&mut wl, target, &p.mix, false)
+    } else {
+        gen_doc(&mut wl, p)
+    };
     let interesting = interesting_offsets(&doc);
 
     // --- configuration (standard decorators)
